@@ -505,7 +505,12 @@ func (el *eventloop) msgTimeout() {
 			logging.Warnf("[%dm|%df][%dc] try to send request timeout but client already closed", frag.MsgId(), frag.Id, frag.OwnerFd())
 			continue
 		}
-		c.AsyncWrite(codec.ErrMsgRequestTimeout.Bytes(), nil)
+		// complete the request with the timeout error: it is sent in its position in the pipeline
+		// and no longer holds back the replies queued behind it
+		msg.FragDoneNumber = len(msg.Body)
+		msg.RspBody = append(msg.RspBody[:0], codec.ErrMsgRequestTimeout.Bytes()...)
+		msg.Done = true
+		el.flush(c.(*conn))
 		logging.Warnf("[%dm|%df][%dc] request timeout, consider raising config '[proxy]timeout=%d', send res: %s", frag.MsgId(), frag.Id, frag.OwnerFd(), el.engine.opts.RedisRequestTimeout, codec.ErrMsgRequestTimeout.ShortString())
 	}
 }
